@@ -593,6 +593,19 @@ impl VisitMut for Rw {
         strip_known_generics(&mut p.path, self);
     }
 
+    fn visit_pat_struct_mut(&mut self, ps: &mut syn::PatStruct) {
+        // the type path of a struct pattern gets the same treatment as a type path (R1: generics, nested outer type)
+        strip_known_generics(&mut ps.path, self);
+        visit_mut::visit_pat_struct_mut(self, ps);
+    }
+
+    fn visit_pat_tuple_struct_mut(&mut self, ps: &mut syn::PatTupleStruct) {
+        if !(ps.path.is_ident("Some") || ps.path.is_ident("Ok") || ps.path.is_ident("Err")) {
+            strip_known_generics(&mut ps.path, self);
+        }
+        visit_mut::visit_pat_tuple_struct_mut(self, ps);
+    }
+
     fn visit_expr_struct_mut(&mut self, s: &mut syn::ExprStruct) {
         // R1: drop PhantomData fields
         let before = s.fields.len();
